@@ -33,8 +33,8 @@ PROPS = {
         "case_sets": ["parse"],
         "ops": ["PARSE", "PARSEV"],
         "oracle_clauses": [r"c07-.*", r"c08-unaccounted", r"c15-statement-count", r"unreadable-.*"],
-        "lean_targets": ["PqlModel.Props.C07", "PqlModel.Props.C07Full", "PqlModel.Props.C07Layout"],
-        "facts": ["precedence", "keywords", "joinTypes"],
+        "lean_targets": ["PqlModel.Props.C07", "PqlModel.Props.C07Full", "PqlModel.Props.C07Layout", "PqlModel.Props.C07Keywords"],
+        "facts": ["precedence", "keywords", "joinTypes", "operatorKeywords"],
         "rule": "PARSEV: programs generated from the grammar (every operator, every expression form incl. the `in` rule, "
                 "nested joins, lets, render; random layout, comments, keyword synonyms, redundant and required parentheses); "
                 "PARSE: hand-written corpus, token- and byte-level corruptions, token soups, pathological nesting. "
